@@ -27,8 +27,12 @@ type Q struct {
 // Open opens (or reopens) the queue in dir.  syncTimeout is 1h so that syncs
 // are driven by the operation count only and the I/O loop's behaviour is a
 // function of the history.
+// SyncTimeout is the queue's periodic-sync interval used by Open.  One hour (the default) makes syncs count-driven and the
+// I/O loop's iteration sequence a function of the history; a check that wants the timer to fire sets a short one.
+var SyncTimeout = time.Hour
+
 func Open(dir string, max, syncEvery int64) *Q {
-	bq := nsqd.NewDiskQueue(QName, dir, max, syncEvery, time.Hour)
+	bq := nsqd.NewDiskQueue(QName, dir, max, syncEvery, SyncTimeout)
 	return &Q{Dir: dir, Max: max, Sync: syncEvery, BQ: bq, DQ: bq.(*nsqd.DiskQueue)}
 }
 
